@@ -111,7 +111,8 @@ type exchangeSpec struct {
 	// lateProbe: the transport's last read of the request body (the probe for bytes beyond the declared length) is
 	// scheduled after the response has started to reach the client. Otherwise the backend answers only once the
 	// proxy has finished sending the request. (net/http leaves this order to the goroutine scheduler.)
-	lateProbe bool
+	lateProbe        bool
+	backendURLExtras bool // the caller's backend URL carries a path and a query of its own
 	// client behaviour
 	clientCloseWhenBackendHasRequest bool // client goes away while the backend is stalled before responding
 	clientCloseAfterBody             int  // >0: client closes after reading that many body bytes (backend stalled mid-body)
@@ -281,6 +282,11 @@ func runExchange(spec exchangeSpec) exchangeResult {
 		mark("inner-start")
 		defer mark("inner-end")
 		req.URL = &url.URL{Scheme: "http", Host: backendHost}
+		if spec.backendURLExtras {
+			// the URL by which the caller designates the backend has a path and a query of its own (a base path, an
+			// access token): the backend is that host; path and query are the client's
+			req.URL.Path, req.URL.RawQuery = "/base", "token=s3cret"
+		}
 		if req.Body != nil && req.Body != http.NoBody && req.ContentLength != 0 {
 			req.Body = &orderedBody{rc: req.Body, written: func() { reqWrittenOnce.Do(func() { close(reqWritten) }); probedOnce.Do(func() { close(probed) }) },
 				probed: func() { probedOnce.Do(func() { close(probed) }) },
